@@ -148,7 +148,7 @@ fn build(th: &Theory, make: fn() -> Box<dyn DynModel>, db: &LabelledDb) -> Resul
         for (t, v) in db.elem_new.iter().enumerate() {
             for (i, &is_new) in v.iter().enumerate() {
                 if is_new == phase_new {
-                    if th.types[t].kind == TypeKind::Enum { return Err("enum elements cannot be created without a constructor".into()); }
+                    if th.types[t].kind == TypeKind::Enum || th.types[t].member_of.is_some() { return Err("enum elements cannot be created without a constructor (nor member-type elements without a parent)".into()); }
                     ids[t][i] = m.new_el(t);
                 }
             }
